@@ -50,6 +50,9 @@ struct Case {
     /// another process holds the index's LOCK file (a running node): the run may refuse to start, but whatever it delivers
     /// must be the active chain of the index as it is on disk (table files AND write-ahead log)
     lock_held: bool,
+    /// heights below this one are pruned: their records keep their validity (genesis: VALID_TRANSACTIONS, as Core leaves it)
+    /// but carry neither HAVE_DATA nor a position; the run starts at this height (0 = nothing pruned)
+    pruned_below: u64,
 }
 
 const TIP: u64 = 4;
@@ -129,9 +132,9 @@ pub fn run() -> Report {
     for s in &sets {
         for &form in &forms {
             for cb in &cbs {
-                cases.push(Case { end: None, hash_seed: 1, same_file: false, extras: s.clone(), form, cb, tip_file: 0, lock_held: false });
+                cases.push(Case { end: None, hash_seed: 1, same_file: false, extras: s.clone(), form, cb, tip_file: 0, lock_held: false, pruned_below: 0 });
                 if form == 0 {
-                    cases.push(Case { end: None, hash_seed: 1, same_file: true, extras: s.clone(), form, cb, tip_file: 0, lock_held: false });
+                    cases.push(Case { end: None, hash_seed: 1, same_file: true, extras: s.clone(), form, cb, tip_file: 0, lock_held: false, pruned_below: 0 });
                 }
             }
         }
@@ -142,7 +145,7 @@ pub fn run() -> Report {
                 for end in [h, h + 1] {
                     if end >= 1 && end <= TIP {
                         for hash_seed in [1u8, 2, 6, 9, 17, 18, 19, 28, 47, 48] {
-                            cases.push(Case { end: Some(end), hash_seed, same_file: false, extras: s.clone(), form: 0, cb: "csvdump", tip_file: 0, lock_held: false });
+                            cases.push(Case { end: Some(end), hash_seed, same_file: false, extras: s.clone(), form: 0, cb: "csvdump", tip_file: 0, lock_held: false, pruned_below: 0 });
                         }
                     }
                 }
@@ -152,16 +155,22 @@ pub fn run() -> Report {
     for x in &singles {
         for tip_file in 1..=3u8 {
             for cb in &cbs {
-                cases.push(Case { end: None, hash_seed: 1, same_file: false, extras: vec![*x], form: 0, cb, tip_file, lock_held: false });
+                cases.push(Case { end: None, hash_seed: 1, same_file: false, extras: vec![*x], form: 0, cb, tip_file, lock_held: false, pruned_below: 0 });
             }
         }
     }
     for x in &singles {
         for form in [0u8, 1, 3] {
-            cases.push(Case { end: None, hash_seed: 1, same_file: false, extras: vec![*x], form, cb: "csvdump", tip_file: 0, lock_held: true });
+            cases.push(Case { end: None, hash_seed: 1, same_file: false, extras: vec![*x], form, cb: "csvdump", tip_file: 0, lock_held: true, pruned_below: 0 });
         }
         for cb in &cbs {
-            cases.push(Case { end: None, hash_seed: 1, same_file: false, extras: vec![*x], form: 3, cb, tip_file: 0, lock_held: false });
+            cases.push(Case { end: None, hash_seed: 1, same_file: false, extras: vec![*x], form: 3, cb, tip_file: 0, lock_held: false, pruned_below: 0 });
+        }
+    }
+    // a pruning node: heights 0..2 pruned, the run starts at 3; every single extra record under three hash seeds
+    for x in &singles {
+        for hash_seed in [1u8, 2, 6] {
+            cases.push(Case { end: None, hash_seed, same_file: false, extras: vec![*x], form: 0, cb: "csvdump", tip_file: 0, lock_held: false, pruned_below: 3 });
         }
     }
     rep.rule = "active chain of 5 blocks plus every set of <= 2 (thorough: <= 3) extra index records drawn from {header-only (VALID_TREE) at/below/beyond the tip, never-connected stale sibling with data, failed block with data, FAILED_CHILD header, once-active reorged-out 2-block branch, invalidated (FAILED_VALID/FAILED_CHILD, formerly fully validated) 3-block branch reaching above the tip, never-connected blocks with data above the tip, never-connected records whose key shares the first 8 / last 8 / all but one byte with the active block's hash or begins with 8 zero bytes}, each competitor at an occupied height in both LevelDB key orders (nonce ground); competitor data stored in a file of its own or inside the active chain's file right after its parent; index histories {log only, header-only-then-upgraded across a compaction, table only, pre-reorganisation chain in the table files with today's chain in the write-ahead log}; the index's LOCK file held by another process; --end at and just above each competitor's height under 10 HashMap iteration orders (seeds of the deterministic getrandom stream); csvdump and unspentcsvdump; non-trivial = distinct case with >= 1 extra record".into();
@@ -299,7 +308,17 @@ pub fn run() -> Report {
             for (r, variant) in &twins {
                 world.add_key_twin(r, *variant);
             }
-            let mut spec = RunSpec::new("bitcoin", c.cb).range(None, c.end);
+            if c.pruned_below > 0 {
+                for (r, _) in recs.iter().take(chain.blocks.len()) {
+                    if r.height < c.pruned_below {
+                        let mut p = r.clone();
+                        p.status = if r.height == 0 { VALID_TRANSACTIONS } else { VALID_SCRIPTS };
+                        world.put_rec(&p);
+                    }
+                }
+                acc.count("pruned-lower-part", 1);
+            }
+            let mut spec = RunSpec::new("bitcoin", c.cb).range(if c.pruned_below > 0 { Some(c.pruned_below) } else { None }, c.end);
             spec.verbosity = (_i % 4) as u8;
             if c.hash_seed != 1 {
                 spec.env.push(("VERIF_DETRAND".into(), c.hash_seed.to_string()));
